@@ -320,8 +320,8 @@ impl Property for C02 {
     }
     fn cases(&self, tier: Tier) -> usize {
         match tier {
-            Tier::Quick => 60_000,
-            Tier::Thorough => 2_000_000,
+            Tier::Quick => 400_000,
+            Tier::Thorough => 10_000_000,
         }
     }
     fn assumptions(&self) -> Vec<String> {
